@@ -61,6 +61,11 @@ def alphabet():
         assign("du", CALL("<builtin>dot_product", [V(U), V(U)])),
         assign("eu", CALL("<builtin>elementwise_abs", [V(U)])),
         assign("lu", CALL("<builtin>len", [V(U)])),
+        # keyword arguments written in another order than the signature (kinds are declared per argument)
+        assign("trk", CALL("<builtin>transpose", [], [["a_cols", C(1)], ["a", V("ca")]])),
+        assign("dk", CALL("<builtin>dot_product", [], [["y", V("ca")], ["x", V("ra")]])),
+        assign("nk", CALL("<builtin>norm_2", [], [["x", V("ca")]])),
+        assign("mk", CALL("<builtin>matmul", [V("ca")], [["b_cols", C(1)], ["a_cols", C(1)], ["b", V("ra")]])),
     ]
 
 
@@ -194,7 +199,7 @@ def observe_two_phases(calls_a, calls_b):
     err = ""
     try:
         with np.errstate(all="ignore"):
-            for ev in it.run(max_steps=2):
+            for ev in it.run(max_steps=3):
                 if isinstance(ev, it.StepCompleted):
                     per_phase[ev.current_state] += st.events
                     st.events = []
@@ -228,6 +233,22 @@ def run(chk):
     cand = [p for p in programs if len(p) >= 2]
     for _ in range(150 if chk.quick else 3000):
         cases += observe_two_phases(rng.choice(cand), rng.choice(cand))
+    # every built-in call written with keyword arguments in another order than the signature, after a prelude that
+    # defines real and complex scalars and arrays
+    prelude = [alpha[0], alpha[1], alpha[5], alpha[6], assign("ca", P(V("ra"), V("c")))]
+    for st in alpha:
+        if st["op"] == "assign" and st["rhs"][0] == "call" and st["rhs"][3]:
+            cases.append(observe(prelude + [st]))
+    # a persistent variable refined in ONE phase and read in the other (both insertion orders; run: zeta, alpha, zeta)
+    for reader_first in (True, False):
+        for wid in ([assign("cc", P(V("<dt>"), ["cx", 0, 1])), assign("<p>s", S(V("<p>s"), V("cc")))],
+                    [assign("cc", P(V("<dt>"), ["cx", 0, 1])), assign("c2", V("cc")), assign("<p>s", P(V("<p>s"), V("c2")))]):
+            reader = [assign("<p>o", P(V("<p>s"), C(2))), assign("<p>s", S(V("<dt>"), C(0)))]
+            init = [assign("<p>s", S(V("<dt>"), C(0)))]
+            if reader_first:
+                cases += observe_two_phases(reader, wid)          # zeta reads (and re-initialises), alpha widens
+            else:
+                cases += observe_two_phases(init + wid, reader)   # zeta widens, alpha reads
     # widening family: a variable whose kind is widened (real -> complex, scalar -> array, scalar -> user type)
     # with a copy chain hanging off it, presented to inference in many statement orders
     x0 = assign("x", P(V("<dt>"), C(2)))
